@@ -97,6 +97,9 @@ def op_lines(op, nest):
     """request lines of one operation (creations of nesting types as token sequences)"""
     if nest and op[0] == "create" and op[1] in REG:
         return create_tokens(nest, op[1])
+    if op[0] == "createn":                    # create_agents(spec) = count × create_agent
+        one = create_tokens(nest, op[1]) if nest and op[1] in REG else [f"create {op[1]}"]
+        return (one * op[2]) or ["setstate 999999 0"]
     if nest and op[0] in ("configure", "configureall") and all(t in REG for t, _ in op[1]):
         out = [op[0] + " -"]
         for t, n in op[1]:
@@ -149,6 +152,14 @@ def apply_real(m, op, arg_obj=None):
     try:
         if k == "delete" and arg_obj is not None:
             m.delete_agents(arg_obj)
+        elif k == "delete" and len(op) > 2:              # wave 7: kinds of the argument container / of the ids
+            ids, kind = list(op[1]), op[2]
+            arg = {"tuple": tuple(ids), "set": set(ids), "dup": ids + ids[:1], "float": [float(i) for i in ids],
+                   "range": range(min(ids), max(ids) + 1) if ids else range(0), "keys": dict.fromkeys(ids).keys(),
+                   "reversed": list(reversed(ids))}[kind]
+            m.delete_agents(arg)
+        elif k == "createn":                             # wave 7: create_agents called directly
+            m.create_agents({"name": TYPES[op[1]], "count": op[2]})
         elif k == "delown":
             m.delete_agents(m.agent_ids(TYPES[op[1]]) if op[2] == "ids" else m.agent_type_map[TYPES[op[1]]])
         elif k == "create":
@@ -179,6 +190,8 @@ def op_line(op):
     k = op[0]
     if k == "create":
         return f"create {op[1]}"
+    if k == "createn":
+        return f"createn {op[1]} {op[2]}"
     if k == "delete":
         return "delete " + (",".join(map(str, op[1])) or "-")
     if k in ("configure", "configureall"):
@@ -205,6 +218,7 @@ def parse_line(l, variant=0):
     spec = lambda s: [] if s == "-" else [tuple(map(int, x.split(":"))) for x in s.split(",")]
     nats = lambda s: [] if s == "-" else [int(x) for x in s.split(",")]
     if p[0] == "create": return ("create", int(p[1]))
+    if p[0] == "createn": return ("createn", int(p[1]), int(p[2]))
     if p[0] == "delete": return ("delete", nats(p[1]))
     if p[0] == "configure": return ("configure", spec(p[1]))
     if p[0] == "configureall": return ("configureall", spec(p[1]), variant)
@@ -239,6 +253,8 @@ def query_one(m, op, scripted=True):
     kind = op[1]
     if kind == "lookup":
         return _agent_str(op[2], m.agent(op[2]))
+    if kind == "lookupf":                                   # wave 7: the id given as a float (2.0 is the id 2)
+        return _agent_str(op[2], m.agent(float(op[2])))
     if kind == "ids":
         return f"ids{op[2]}=" + _guard(lambda: ",".join(str(i) for i in m.agent_ids(TYPES[op[2]])))
     if kind == "cnt":
@@ -300,6 +316,10 @@ class Shadow:
         k = op[0]
         if k == "create":
             self.create(op[1])
+        elif k == "createn":
+            for _ in range(op[2]):
+                if not self.create(op[1]):
+                    return
         elif k == "delete":
             self.live = [a for a in self.live if a[0] not in op[1]]
         elif k == "delown":                      # every live agent of the type (contract histories: attribute = key)
@@ -385,7 +405,7 @@ def single_query_violation(ans, op, sh, contract):
     kind = op[1]
     if ans is None:
         return None
-    if kind == "lookup":
+    if kind in ("lookup", "lookupf"):
         x = next((x for x in sh.live if x[0] == op[2]), None)
         exp = f"a{op[2]}=none" if x is None else f"a{op[2]}={x[0]}.{x[1]}.{x[2]}"
         return None if ans == exp else ("lookup", f"{op_line(op)} -> {ans} expected {exp}")
@@ -431,7 +451,7 @@ class Hist:
         self.ops, self.fac, self.mode, self.tag, self.nest = list(ops), fac, mode, tag, nest
     def contract(self):
         return is_faithful(self.fac) and not any(
-            o[0] == "callerappend" or (o[0] == "create" and o[1] not in REG) or (o[0] in ("delown", "deliter", "hold") and o[1] not in REG)
+            o[0] == "callerappend" or (o[0] in ("create", "createn") and o[1] not in REG) or (o[0] in ("delown", "deliter", "hold") and o[1] not in REG)
             or (o[0] in ("configure", "configureall") and any(t not in REG for t, _ in o[1])) for o in self.ops)
     def lines(self):
         return [f"fac {k} " + (",".join(map(str, l)) or "-") for k, l in sorted((self.fac or {}).items())] + \
@@ -440,12 +460,37 @@ class Hist:
         return {"fac": {str(k): l for k, l in (self.fac or {}).items()}, "mode": self.mode,
                 "nest": {str(k): [list(v[0]), list(v[1])] for k, v in (self.nest or {}).items()},
                 "ops": [op_line(o) for o in self.ops],
-                "variants": [o[2] if o[0] == "configureall" else 0 for o in self.ops]}
+                "variants": [o[2] if o[0] == "configureall" else 0 for o in self.ops],
+                "kinds": [o[2] if o[0] == "delete" and len(o) > 2 else None for o in self.ops]}
 
 
 def run_history(h):
     """Real code on the history.  Returns (request lines, real reply lines (None = not comparable),
     first (index, violations))."""
+    g = run_history_gen(h)
+    try:
+        while True:
+            next(g)
+    except StopIteration as e:
+        return e.value
+
+
+def run_pair(ha, hb):
+    """Two models alive in one process, their operations interleaved one by one (wave 7: registry state that lives in
+    a class attribute or a module global instead of the instance)."""
+    gens, res = [run_history_gen(ha), run_history_gen(hb)], [None, None]
+    while any(g is not None for g in gens):
+        for i, g in enumerate(gens):
+            if g is None:
+                continue
+            try:
+                next(g)
+            except StopIteration as e:
+                res[i], gens[i] = e.value, None
+    return res
+
+
+def run_history_gen(h):
     m, sh = new_model(h.fac, h.nest), Shadow(h.fac, h.nest)
     contract = h.contract()
     spec_ok = not any(o[0] == "callerappend" for o in h.ops)      # after a caller mutation nothing is promised
@@ -494,6 +539,7 @@ def run_history(h):
                     break
         else:
             do(i, op)
+        yield
     if h.mode != "full":
         req.append("query"); real.append(query_real(m))
         if spec_ok and not viols:
@@ -501,6 +547,31 @@ def run_history(h):
             if v:
                 viols = [(len(h.ops) - 1, v)]
     return req, real, viols
+
+
+def shrink_pair(ha, hb, key, budget=120):
+    """greedy deletion of operations from both histories while the FIRST one still shows the violation when interleaved"""
+    def fails(a, b):
+        try:
+            return any(x[0] == key for _, vs in run_pair(a, b)[0][2] for x in vs)
+        except Exception:
+            return False
+    for which in (1, 0, 1, 0):
+        i = 0
+        while budget > 0:
+            cur = (ha, hb)[which]
+            if i >= len(cur.ops):
+                break
+            cand = Hist(cur.ops[:i] + cur.ops[i + 1:], cur.fac, cur.mode, cur.tag, cur.nest)
+            budget -= 1
+            if (fails(cand, hb) if which == 0 else fails(ha, cand)):
+                if which == 0:
+                    ha = cand
+                else:
+                    hb = cand
+            else:
+                i += 1
+    return ha, hb
 
 
 def shrink(h, fails):
@@ -566,6 +637,18 @@ def probe_id_reservation():
         return False, False
 
 
+def probe_registry_per_instance():
+    """Two models alive at once: is the registry (agents, type map, id counter) the instance's own?"""
+    try:
+        a, b = new_model(), new_model()
+        a.create_agent("a", {}); a.create_agent("b", {})
+        ok = list(b.agent_ids("a")) == [] and b.agents == [] and b.next_agent_id == 0 and b.agent_count("b") == 0
+        b.create_agent("a", {})
+        return ok and [x.id for x in b.agents] == [0] and list(a.agent_ids("a")) == [0] and a.next_agent_id == 2 and len(a.agents) == 2
+    except Exception:
+        return False
+
+
 def probe_alias():
     """Is the list returned by agent_ids the registry's own list, and which operations rebind it?"""
     f = {}
@@ -606,7 +689,7 @@ ANYATTR_WITNESSES = [   # (name, fac, ops, what the Lean witness theorem says th
 ]
 
 
-def gen_lean(count_by_id, aliased, snapshot=True, reserve=(True, True)):
+def gen_lean(count_by_id, aliased, snapshot=True, reserve=(True, True), per_instance=True):
     b = "true" if count_by_id else "false"
     a = "true" if aliased else "false"
     d = "true" if snapshot else "false"
@@ -634,6 +717,12 @@ def gen_lean(count_by_id, aliased, snapshot=True, reserve=(True, True)):
         if not reserve[1]:
             body += ("/-- ... nor before initialize(): an initialize() that creates an agent reuses the id. -/\n"
                      "theorem nested_violated_init : ¬ C14_full_nested cfg cfgn := C14_witness_nested_late cfg cfgn (by decide) (by decide)\n#print axioms nested_violated_init\n")
+    if per_instance and count_by_id:
+        body += ("/-- the registry is the instance's own: two models alive at once do not disturb each other. -/\n"
+                 "theorem two_models_isolated : type_of% @C14_two_models := @C14_two_models\n#print axioms two_models_isolated\n")
+    elif not per_instance:
+        body += ("/-- registry state shared between instances (class attribute / module global). -/\n"
+                 "theorem registry_shared : type_of% C14_witness_shared_registry := C14_witness_shared_registry\n#print axioms registry_shared\n")
     if reserve[1]:
         body += ("/-- re-entrant creation from initialize() alone is safe already when the id is reserved before initialize(). -/\n"
                  "theorem nested_init_only : type_of% @C14_full_nested_init_only := @C14_full_nested_init_only\n#print axioms nested_init_only\n")
@@ -674,6 +763,57 @@ def exhaustive_ownargs(L):
             s2.apply(("delown", op[1]) if op[0] == "deliter" else op)       # population used to instantiate the alphabet only
             yield from rec(prefix + [op], s2, depth + 1)
     yield from rec([], Shadow(), 0)
+
+
+DEL_KINDS = ["tuple", "set", "dup", "float", "range", "keys", "reversed"]
+
+
+def exhaustive_argkinds(L):
+    """Every history of length L over an alphabet with the argument kinds of wave 7 (full mode)."""
+    def alphabet(sh):
+        ops = [("create", 0), ("create", 1), ("createn", 0, 2), ("configure", [(0, 2), (1, 1)]), ("q", "lookupf", 0)]
+        if sh.live:
+            o, n = sh.live[0][0], sh.live[-1][0]
+            ops += [("delete", [o], "tuple"), ("delete", sorted({o, n}), "dup"), ("delete", list(range(o, n + 1)), "range"),
+                    ("delete", [n], "float"), ("delete", sorted({o, n}), "set"), ("setstate", n, 1), ("q", "lookupf", n)]
+        return ops
+    def rec(prefix, sh, depth):
+        if depth == L:
+            yield Hist(prefix, None, "full", "exhaustive-argkinds"); return
+        for op in alphabet(sh):
+            s2 = sh.copy()
+            s2.apply(op)
+            yield from rec(prefix + [op], s2, depth + 1)
+    yield from rec([], Shadow(), 0)
+
+
+def rand_argkinds_history(rng, mode):
+    sh, ops = Shadow(), []
+    for _ in range(rng.range(5, 35)):
+        if rng.chance(1, 4):
+            dead = [i for i in sh.ever if i not in [a[0] for a in sh.live]]
+            ops.append(("q", "lookupf", rng.choice(dead) if dead and rng.chance(1, 2) else rng.below(sh.next + 2))); continue
+        if mode == "sparse" and rng.chance(1, 3):
+            ops.append(rand_query(rng, sh)); continue
+        r = rng.below(12)
+        if r < 3 or not sh.live:
+            op = ("create", rng.below(2))
+        elif r < 5:
+            op = ("createn", rng.below(2), rng.range(1, 3))
+        elif r < 9:
+            kind = rng.choice(DEL_KINDS)
+            ids = sorted({rng.choice(sh.live)[0] if rng.chance(4, 5) else rng.below(sh.next + 3) for _ in range(rng.range(1, 3))})
+            if kind == "range":
+                ids = list(range(ids[0], ids[-1] + 1))
+            op = ("delete", ids, kind)
+        elif r < 10:
+            op = ("setstate", rng.choice(sh.live)[0], rng.below(3))
+        elif r < 11:
+            op = ("configure", [(t, rng.below(4)) for t in REG])
+        else:
+            op = ("reset",)
+        sh.apply(op); ops.append(op)
+    return Hist(ops, None, mode, "random-argkinds")
 
 
 def rand_ownargs_history(rng, mode):
@@ -856,6 +996,13 @@ def histories(chk):
     for _ in range(n // 2):
         yield rand_history(rng, rng.choice(["full", "sparse"]), None, nest=rng.choice(NESTS))
     yield from exhaustive_ownargs(3 if chk.quick else 5)
+    yield from exhaustive_argkinds(3 if chk.quick else 4)
+    for _ in range(n // 2):
+        yield rand_argkinds_history(rng, rng.choice(["full", "sparse"]))
+    for _ in range(n // 3):                                   # wave 7: two models alive at once, operations interleaved
+        a = rand_history(rng, rng.choice(["full", "sparse"]), None, nest=rng.choice(NESTS + [None, None]))
+        b = rand_argkinds_history(rng, "full") if rng.chance(1, 2) else rand_history(rng, "full")
+        yield (Hist(a.ops, a.fac, a.mode, "pair", a.nest), Hist(b.ops, b.fac, b.mode, "pair", b.nest))
     for _ in range(n // 2):
         yield rand_ownargs_history(rng, rng.choice(["full", "sparse"]))
     if L7:
@@ -872,10 +1019,12 @@ def run(chk):
     alias = probe_alias()
     snapshot = probe_delete_snapshot()
     reserve = probe_id_reservation()
+    per_instance = probe_registry_per_instance()
     chk.notes["cfg"] = {"countById": count_by_id, "idsAliased": alias["idsAliased"], "deleteArgSnapshot": snapshot,
-                        "idReservedBeforeFactory": reserve[0], "idReservedBeforeInitialize": reserve[1]}
+                        "idReservedBeforeFactory": reserve[0], "idReservedBeforeInitialize": reserve[1],
+                        "registryPerInstance": per_instance}
     chk.notes["alias_probe"] = alias
-    ok, why = chk.prove(gen_lean(count_by_id, alias["idsAliased"], snapshot, reserve))
+    ok, why = chk.prove(gen_lean(count_by_id, alias["idsAliased"], snapshot, reserve, per_instance))
     chk.cov["trusted_base"] = [
         "Lean 4.33 kernel; axioms propext, Classical.choice, Quot.sound (audited per run via #print axioms)",
         "hand-written model lean/Bptk/Core/C14.lean of Model.create_agent(s)/delete_agent(s)/configure_agents/configure/reset and the queries agent/agent_ids/agent_count/agent_count_per_state/next_agent/random_agents; tied to /repo by the correspondence run of this check and by the probes of agent_count_per_state and of agent_ids aliasing",
@@ -899,7 +1048,10 @@ def run(chk):
                        "delete_agents(agent_type_map[T]), delete_agent while iterating agent_ids(T), delete_agents(held list)); re-entrant creation "
                        "(5 tables of agent types whose factory / initialize() create 1-2 further agents, nesting depth <= 2: all histories of "
                        f"length {'3/2' if chk.quick else '4/3'} over the small alphabet, and random ones); all histories "
-                       f"of length {3 if chk.quick else 5} over a 10-letter alphabet with them, and random ones; lookup patterns around every clearing "
+                       f"of length {3 if chk.quick else 5} over a 10-letter alphabet with them, and random ones; wave 7: create_agents called directly, "
+                       "delete_agents with tuple / set / range / dict-keys / duplicated / reversed / float-id arguments, lookups with float ids "
+                       f"(all histories of length {3 if chk.quick else 4} over a 12-letter alphabet + random), pairs of models alive at once with "
+                       "interleaved operations; lookup patterns around every clearing "
                        "operation with the same agent counts, Model.configure, unfaithful factories, unregistered types, caller appends; "
                        "a case is the canonical op sequence; non-trivial = contains at least one deletion/configure/reset")
     chk.cov["exhaustive"] = False
@@ -934,26 +1086,43 @@ def run(chk):
                 compare(*pending)
             pending = (ex.submit(drive, "C14", req), req, real, owner)
             req, real, owner = list(head), ["ok"] * len(head), [None] * len(head)
-        for hi, h in enumerate(histories(chk)):
-            rq, rl, viols = run_history(h)
+        def results(stream):
+            """(history, result, partner) — pairs are run interleaved, two models alive at once"""
+            for item in stream:
+                if isinstance(item, tuple):
+                    ra, rb = run_pair(item[0], item[1])
+                    yield item[0], ra, item[1]
+                    yield item[1], rb, item[0]
+                else:
+                    yield item, run_history(item), None
+        for hi, (h, (rq, rl, viols), partner) in enumerate(results(histories(chk))):
             req += rq; real += rl; owner += [h] * len(rq)
             for op in h.ops:
                 kk = op[0] + ("-" + op[1] if op[0] == "q" else "")
+                if op[0] == "delete":
+                    kk += ":" + (op[2] if len(op) > 2 else ("delete_agent" if len(op[1]) == 1 else "list"))
                 kinds[kk] = kinds.get(kk, 0) + 1
                 if kk == "q-rnd":
                     st["n_rnd"] += 1
+            if partner is not None:
+                kinds["two-models-interleaved(histories)"] = kinds.get("two-models-interleaved(histories)", 0) + 1
+            if h.nest:
+                kinds["history-with-re-entrant-creation"] = kinds.get("history-with-re-entrant-creation", 0) + 1
             st["skipped"] += sum(1 for x in rl if x is None)
             tags[h.tag] = tags.get(h.tag, 0) + 1
             st["n"] += 1
             chk.case(tuple(h.lines()) + (h.mode,), nontrivial=any(o[0] in ("delete", "configure", "configureall", "reset") for o in h.ops),
                      sample=h.lines() if len(h.ops) > 5 and h.tag.startswith("random") and hi % 7 == 0 else None)
             if viols and st["spec"] is None:
-                st["spec"] = (h, viols[0])
+                st["spec"] = (h, viols[0], partner)
+            if viols and partner is not None and st.get("spec_pair") is None:
+                st["spec_pair"] = (h, viols[0], partner)
             if len(req) >= CHUNK_LINES:
                 flush()
         flush()
         compare(*pending)
     chk.cov["op_distribution"] = kinds
+    chk.notes["coverage_rows"] = dict(sorted(kinds.items()), histories_by_stream=dict(sorted(tags.items())))
     chk.cov["history_kinds"] = tags
     chk.cov["exhaustive_histories"] = tags.get("exhaustive", 0)
     chk.cov["exhaustive_anyattr_histories"] = tags.get("exhaustive-anyattr", 0)
@@ -979,8 +1148,16 @@ def run(chk):
     chk.notes["anyattr_witnesses_on_real_code"] = wit
     # --- decide
     first_spec_fail = st["spec"]
-    if first_spec_fail is not None:
-        h, (idx, v) = first_spec_fail
+    if first_spec_fail is not None and not run_history(first_spec_fail[0])[2] and st.get("spec_pair") is not None:
+        first_spec_fail = st["spec_pair"]          # not reproducible alone: state leaking between models, show it on a pair
+    if first_spec_fail is not None and first_spec_fail[2] is not None and not run_history(first_spec_fail[0])[2]:
+        h, (idx, v), partner = first_spec_fail        # fails only with a second model alive: keep the pair
+        h, partner = shrink_pair(h, partner, v[0][0])
+        v = (run_pair(h, partner)[0][2] or [(0, v)])[0][1]
+        chk.add_finding(v[0][0], f"after {h.lines()} interleaved with a second model ({partner.lines()}): {v[0][1]}",
+                        {"pair": [h.replay(), partner.replay()], "violations": v})
+    elif first_spec_fail is not None:
+        h, (idx, v), _ = first_spec_fail
         key0 = v[0][0]
         small = shrink(Hist(h.ops[:idx + 1], h.fac, h.mode, h.tag, h.nest), lambda c: any(x[0] == key0 for _, vs in run_history(c)[2] for x in vs))
         _, _, vv = run_history(small)
@@ -990,6 +1167,9 @@ def run(chk):
         chk.add_finding("ids-not-unique", f"probe: next_agent_id is incremented before the factory call: {reserve[0]}, before initialize(): {reserve[1]}; "
                                           "an agent created from inside that window gets the id of the agent being created",
                         {"ops": ["create 0"], "nest": {"0": [[1], [1]]}, "mode": "full"})
+    if not per_instance and first_spec_fail is None:
+        chk.add_finding("agent_ids", "probe: two models alive at once share registry state (create in one shows up in the other)",
+                        {"pair": [{"ops": ["create 0"], "mode": "full"}, {"ops": [], "mode": "full"}]})
     if not snapshot and first_spec_fail is None:
         chk.add_finding("agent_ids", "probe: create a x4, b; delete_agents(agent_ids('a')): dead ids stay listed / live agents wrong",
                         {"ops": ["create 0"] * 4 + ["create 1", "deleteown 0 ids"], "mode": "full"})
@@ -1008,10 +1188,26 @@ def run(chk):
 def replay(path):
     quiet_bptk_logging()
     r = json.load(open(path))["replay"]
+    if r.get("pair"):
+        hs = []
+        for x in r["pair"]:
+            variants = x.get("variants") or [0] * len(x.get("ops", []))
+            ops = [parse_line(l, v) for l, v in zip(x.get("ops", []), variants)]
+            kinds = x.get("kinds") or [None] * len(ops)
+            ops = [o + (kd,) if kd else o for o, kd in zip(ops, kinds)]
+            fac = {int(k): v for k, v in (x.get("fac") or {}).items()} or None
+            nest = {int(k): (list(v[0]), list(v[1])) for k, v in (x.get("nest") or {}).items()} or None
+            hs.append(Hist(ops, fac, x.get("mode", "full"), "replay", nest))
+        ra, rb = run_pair(hs[0], hs[1])
+        print("pair of models, operations interleaved:", hs[0].lines(), "|", hs[1].lines())
+        print("violations on the current tree:", ra[2], rb[2])
+        return 1 if (ra[2] or rb[2]) else 0
     if "history" in r and r.get("history"):
         r = r["history"]
     variants = r.get("variants") or [0] * len(r.get("ops", []))
     ops = [parse_line(l, v) for l, v in zip(r.get("ops", []), variants)]
+    kinds = r.get("kinds") or [None] * len(ops)
+    ops = [o + (kd,) if kd else o for o, kd in zip(ops, kinds)]
     fac = {int(k): v for k, v in (r.get("fac") or {}).items()} or None
     nest = {int(k): (list(v[0]), list(v[1])) for k, v in (r.get("nest") or {}).items()} or None
     _, _, viols = run_history(Hist(ops, fac, r.get("mode", "full"), "replay", nest))
